@@ -325,9 +325,20 @@ pub fn run(ctx: &Ctx, rep: &Report) -> Meta {
         let idx: Vec<usize> = (0..keys.len()).collect();
         par_items(ctx, rep, &ckn, &idx, |&i| with_cl!(suite, CS => key_case::<CS>(rep, &ckn, i, 1 + i % 5, Some(&keys[i]))));
     }
+    // every base count: Bases::generate(pk, n) and a commitment key with n bases over the issuer modulus for every n
+    // in 9..=70 (quick) / 9..=200 (thorough); a generation that is split into blocks or workers loses or repeats
+    // elements at counts no short list anticipates
+    {
+        let keys = key_pool(ClSuite::CL1024, 0, 2, ctx.seed);
+        let ns: Vec<usize> = (9..=ctx.tier.pick(70usize, 200usize)).collect();
+        par_items(ctx, rep, "base-count-sweep", &ns, |&n| key_case::<CL1024Sha256>(rep, "base-count-sweep", n % keys.len(), n, Some(&keys[n % keys.len()])));
+        if !rep.aborted() {
+            rep.exhaustive(format!("every base count n in 9..={} for Bases::generate and CL03CommitmentPublicKey::generate over the issuer modulus", ctx.tier.pick(70, 200)));
+        }
+    }
     // commitment keys over an own modulus (hook H2 hands out the factors)
-    let own: Vec<usize> = (0..ctx.tier.pick(2usize, 8usize)).collect();
-    par_items(ctx, rep, "own-modulus-commitment-keys", &own, |&i| own_modulus_case::<CL1024Sha256>(rep, "own-modulus-commitment-keys", 1 + i % 5));
+    let own: Vec<usize> = (0..ctx.tier.pick(3usize, 9usize)).collect();
+    par_items(ctx, rep, "own-modulus-commitment-keys", &own, |&i| own_modulus_case::<CL1024Sha256>(rep, "own-modulus-commitment-keys", if i % 3 == 2 { 17 + i / 3 } else { 1 + i % 5 }));
     run_cases(ctx, rep, "random-helpers", ctx.tier.pick(400, 4000), 100, rnd_strat, |c| rnd_case(rep, "random-helpers", c));
     if ctx.tier == Tier::Thorough && !rep.aborted() {
         // one CL2048 key from generate(), capped at 20 minutes; not completing is inconclusive for that suite only
@@ -348,7 +359,7 @@ pub fn run(ctx: &Ctx, rep: &Report) -> Meta {
         }
     }
     Meta {
-        rule: "fresh KeyPair::<CL03<CL1024>>::generate() keys (6 quick / 40 thorough; one CL2048 key in thorough), keys assembled from pre-computed safe primes for CL1024 / CL2048 / CL3072, Bases::generate (1..8), commitment keys over the issuer modulus and over an own modulus (factors through hook H2); \
+        rule: "fresh KeyPair::<CL03<CL1024>>::generate() keys (6 quick / 40 thorough; one CL2048 key in thorough), keys assembled from pre-computed safe primes for CL1024 / CL2048 / CL3072, Bases::generate (1..8, and every count 9..=70 quick / 9..=200 thorough), commitment keys with as many bases over the issuer modulus, and over an own modulus (factors through hook H2, 1..5 and 17 / 18 / 19 bases); \
                oracle (own Miller-Rabin with 40 fixed bases + GMP, own Jacobi symbol and gcd): N = p q, p != q, p, q, (p-1)/2, (q-1)/2 prime, |p| = |q| = SECPARAM + 1 bits; b, c, a_i, h, g_i in (1, N), coprime to N, squares modulo p and q, pairwise distinct; h generates QR_N; \
                byte round trips of pk, sk, signature and JSON round trips of pk, sk, key pair, commitment key, bases, signature; commitment randomness of exactly ln bits; random_bits(n) of exactly n bits, rand_int(a, b) in [a, b] reaching both ends on tiny ranges, random_number(n) < n, random_prime(n) prime of n bits, random_qr a residue; \
                non-trivial = every generated key / parameter set / random-helper case; evaluations = judgements"
@@ -361,6 +372,13 @@ pub fn replay(_ctx: &Ctx, rep: &Report, ck: &str, case: &Value) -> CheckResult {
     if ck == "random-helpers" {
         let c: RndCase = serde_json::from_value(case["rnd"].clone()).map_err(|e| Fail { check: ck.into(), site: "replay-parse".into(), msg: e.to_string(), case: case.clone() })?;
         return rnd_case(rep, ck, &c);
+    }
+    if ck == "base-count-sweep" {
+        let keys = key_pool(ClSuite::CL1024, 0, 2, _ctx.seed);
+        for n in 9..=70usize {
+            key_case::<CL1024Sha256>(rep, ck, n % keys.len(), n, Some(&keys[n % keys.len()]))?;
+        }
+        return Ok(());
     }
     // key material is freshly generated: re-run the generation-based checks a few times
     for i in 0..4 {
